@@ -11,7 +11,7 @@
 enum { EV_TFD_CREATE = 1, EV_TFD_SETTIME, EV_EPOLL_CTL, EV_RC, EV_VIOL, EV_FIRE, EV_STEP, EV_NOTE, EV_TIMEOUT };
 enum { V_FIRE_UNREGISTERED = 1, V_FIRE_DISABLED, V_FIRE_ONESHOT_TWICE, V_FIRE_DISPATCH_NOT_REENABLED, V_FIRE_NO_CONDITION,
        V_WRONG_EVENT_KIND, V_EOF_FLAG_MISSING, V_EOF_FLAG_SPURIOUS, V_MISSING_FIRE, V_WRONG_THREAD, V_OP_FAILED, V_ERROR_FLAG_SPURIOUS,
-       V_PROC_FLAGS, V_FD_LEAK, V_ERROR_FLAG_MISSING, V_ERROR_CODE };
+       V_PROC_FLAGS, V_FD_LEAK, V_ERROR_FLAG_MISSING, V_ERROR_CODE, V_REFUSED_BUT_INSTALLED };
 
 int __real_timerfd_create(int clockid, int flags);
 int __real_timerfd_settime(int fd, int flags, const struct itimerspec *n, struct itimerspec *o);
@@ -71,7 +71,7 @@ static void prefork_kids(void) {
 		close(p[0]); g_kid[i] = pid; g_kid_ctl[i] = p[1]; g_kids = i + 1;
 	}
 }
-static tpt_p g_owner; static int g_fd_base;
+static tpt_p g_owner, g_reg /* where events are registered: the owner or the pool virtual thread */; static int g_fd_base;
 static volatile uint64_t g_steps_done, g_viol;
 
 static void viol(int what, int id, int64_t detail) { TM_LOG(EV_VIOL, (uint16_t)what, (uint64_t)id, (id >= 0 && id < MAXID) ? (((uint64_t)g_id[id].kind << 8) | (uint64_t)g_id[id].flags) : 0xffff, detail); __atomic_add_fetch(&g_viol, 1, __ATOMIC_RELAXED); }
@@ -122,7 +122,7 @@ static void ev_cb(tp_event_p ev, tp_udata_p u) {
 	if (d->flags & TP_F_DISPATCH) d->enabled = 0;
 }
 
-enum { H_ADD = 1, H_ENABLE, H_DISABLE, H_DELETE, H_READY, H_CLOSE_PEER, H_SPIN, H_CHECK, H_ENABLE_NEWFLAGS, H_POISON };
+enum { H_ADD = 1, H_ENABLE, H_DISABLE, H_DELETE, H_READY, H_CLOSE_PEER, H_SPIN, H_CHECK, H_ENABLE_NEWFLAGS, H_POISON, H_ADD_REFUSED_TIMER };
 typedef struct { uint8_t op, id, kind, flags; uint32_t arg; } hstep_t;
 static hstep_t *g_prog; static unsigned g_nprog, g_pc; static int g_external;
 static unsigned g_spin_left; static uint64_t g_check_deadline;
@@ -162,15 +162,26 @@ static void do_op(hstep_t *s) {
 		if (d->kind == K_TIMER && d->u.tpdata) break; /* a disabled one-shot timer object still owns its timerfd */
 		memset(&d->u, 0, sizeof(d->u));
 		d->kind = s->kind; d->flags = s->flags; d->u.cb_func = ev_cb; d->fired_since_enable = 0;
-		if (d->kind == K_READ || d->kind == K_WRITE) { open_ident(d, d->kind, (int)(s->arg & 1)); d->u.ident = (uintptr_t)d->fdr; rc = tpt_ev_add_args(g_owner, (uint16_t)d->kind, (uint16_t)d->flags, 0, 0, &d->u); }
-		else if (d->kind == K_TIMER) { d->timer_ms = 1 + (s->arg % 4); d->u.ident = (uintptr_t)d; rc = tpt_ev_add_args(g_owner, TP_EV_TIMER, (uint16_t)d->flags, TP_FF_T_MSEC, d->timer_ms, &d->u); }
+		if (d->kind == K_READ || d->kind == K_WRITE) { open_ident(d, d->kind, (int)(s->arg & 1)); d->u.ident = (uintptr_t)d->fdr; rc = tpt_ev_add_args(g_reg, (uint16_t)d->kind, (uint16_t)d->flags, 0, 0, &d->u); }
+		else if (d->kind == K_TIMER) { d->timer_ms = 1 + (s->arg % 4); d->u.ident = (uintptr_t)d; rc = tpt_ev_add_args(g_reg, TP_EV_TIMER, (uint16_t)d->flags, TP_FF_T_MSEC, d->timer_ms, &d->u); }
 		else {
 			if (g_kid_next >= g_kids) break;
 			d->child = g_kid[g_kid_next]; d->u.ident = (uintptr_t)d->child; d->flags = 0;
-			rc = tpt_ev_add_args(g_owner, TP_EV_PROC, 0, TP_FF_P_EXIT, 0, &d->u);
+			rc = tpt_ev_add_args(g_reg, TP_EV_PROC, 0, TP_FF_P_EXIT, 0, &d->u);
 			close(g_kid_ctl[g_kid_next]); g_kid_ctl[g_kid_next] = -1; g_kid_next++; /* let it exit now */
 		}
 		if (rc) viol(V_OP_FAILED, s->id, rc); else { d->registered = 1; d->enabled = 1; }
+		break;
+	case H_ADD_REFUSED_TIMER: /* a timer the kernel cannot take (seconds >= 2^63): a refused registration must leave nothing installed */
+		if (d->registered || d->u.tpdata) break;
+		memset(&d->u, 0, sizeof(d->u));
+		d->kind = K_TIMER; d->flags = s->flags; d->u.cb_func = ev_cb; d->u.ident = (uintptr_t)d; d->fired_since_enable = 0; d->timer_ms = 1 + (s->arg % 4);
+		rc = tpt_ev_add_args(g_reg, TP_EV_TIMER, (uint16_t)d->flags, TP_FF_T_SEC, ((uint64_t)1 << 63) + s->arg, &d->u);
+		if (rc == 0) { tpt_ev_del_args1(TP_EV_TIMER, &d->u); break; } /* accepting it is not judged here */
+		if (s->arg & 1) { /* probe: there is nothing to delete */
+			if (0 == tpt_ev_del_args1(TP_EV_TIMER, &d->u)) viol(V_REFUSED_BUT_INSTALLED, s->id, rc);
+			memset(&d->u, 0, sizeof(d->u));
+		}
 		break;
 	case H_ENABLE:
 		if (!d->registered || d->kind == K_PROC) break;
@@ -243,8 +254,8 @@ int main(void) {
 	in.p = c; in.n = len; in.o = 0; in.bad = 0;
 	seed = vin_u64(&in); mode = vin_u8(&in);
 	tm_scn_seed = seed; tm_tid = 999;
-	if (mode == 3) prefork_kids();
-	tp_settings_def(&s); s.threads_max = 2; s.flags = 0; s.tpt_on_start = on_start;
+	if (mode == 3) { prefork_kids(); g_external = vin_u8(&in); }
+	tp_settings_def(&s); s.threads_max = (mode == 3 && (g_external & 2)) ? 1 : 2; s.flags = 0; s.tpt_on_start = on_start;
 	rc = tp_create(&s, &g_tp); if (rc) { fprintf(stderr, "tp_create rc=%d\n", rc); return 3; }
 	vout_u32(&o, 0xC06C06); vout_u8(&o, (uint8_t)mode);
 
@@ -281,10 +292,13 @@ int main(void) {
 			}
 		}
 	} else { /* HISTORY */
-		g_external = vin_u8(&in); g_nprog = vin_u16(&in);
+		g_nprog = vin_u16(&in);
 		g_prog = calloc(g_nprog ? g_nprog : 1, sizeof(hstep_t));
 		for (i = 0; i < g_nprog && !in.bad; i++) { g_prog[i].op = vin_u8(&in); g_prog[i].id = vin_u8(&in); g_prog[i].kind = vin_u8(&in); g_prog[i].flags = vin_u8(&in); g_prog[i].arg = vin_u32(&in); }
 		g_owner = tp_thread_get(g_tp, 0);
+		/* bit 1: register everything on the pool virtual thread; the pool then has a single worker, which is the
+		 * thread that runs every callback, so the shadow state stays owned by one thread */
+		g_reg = (g_external & 2) ? tp_thread_get_pvt(g_tp) : g_owner;
 		__atomic_store_n(&g_observe, 1, __ATOMIC_RELAXED);
 		g_fd_base = tm_fd_count();
 		tp_threads_create(g_tp, 0);
